@@ -319,3 +319,23 @@ Qed.
 
 Theorem empty_input rel : group_sound_events 0 rel = [].
 Proof. reflexivity. Qed.
+
+Theorem pairs_calls_ok n : calls_okb n (pairs n) = true.
+Proof.
+  unfold calls_okb. apply forallb_forall. intros [i j] H. apply in_pairs in H. cbn [fst snd].
+  destruct H as [H1 H2].
+  assert (Nat.eqb i j = false) as -> by (apply Nat.eqb_neq; intro; subst; exact (Nat.lt_irrefl _ H1)).
+  assert (Nat.ltb i n = true) as -> by (apply Nat.ltb_lt; eapply Nat.lt_trans; eassumption).
+  assert (Nat.ltb j n = true) as -> by (apply Nat.ltb_lt; exact H2).
+  reflexivity.
+Qed.
+
+Theorem calls_ok_spec n calls : calls_okb n calls = true <-> forall i j, In (i, j) calls -> i <> j /\ i < n /\ j < n.
+Proof.
+  unfold calls_okb. rewrite forallb_forall. split.
+  - intros H i j Hin. specialize (H (i, j) Hin). cbn [fst snd] in H.
+    apply andb_true_iff in H. destruct H as [H H3]. apply andb_true_iff in H. destruct H as [H1 H2].
+    apply negb_true_iff in H1. apply Nat.eqb_neq in H1. apply Nat.ltb_lt in H2. apply Nat.ltb_lt in H3. tauto.
+  - intros H [i j] Hin. destruct (H i j Hin) as [H1 [H2 H3]]. cbn [fst snd].
+    apply Nat.eqb_neq in H1. apply Nat.ltb_lt in H2. apply Nat.ltb_lt in H3. rewrite H1, H2, H3. reflexivity.
+Qed.
